@@ -4,6 +4,7 @@ from ..model import own_nodes, AnalysisError
 from ..paths import factmap, must_call, call_text, returns
 from ..typestate import InstanceTypestate
 from ..fsm import Fsm
+from . import shared
 
 
 def rule_typestate(P, R, rid, ts, only_from=None):
@@ -183,6 +184,7 @@ def run(P, R):
     R.check(r5, ok, 'a process running on the lost instance gets a FATAL report for that instance',
             'chain|invalidate_identifier', u.loc(), 'invalidate_identifier does not feed update_info(identifier, '
             '{state: FATAL ...}) whenever the process was running on the instance')
+    shared.reception_stamp(P, R, r5)
     u = P.unit('Context.invalidate')
     fm = factmap(u)
     iso = [s for s in own_nodes(u.node) if isinstance(s, ast.Assign) and ts.ev.const(s.value) == 'ISOLATED']
@@ -227,6 +229,16 @@ def run(P, R):
         ('remote_sequence_counter < self.remote_sequence_counter', True)}
     R.check(r6, ok, 'a decreasing remote counter forces inactivity (stealth restart)', 'threshold|stealth', u.loc(),
             'SupvisorsTimes.update does not reset the local reference counter under exactly "remote counter decreased"')
+    loc_ = [s for s in own_nodes(u.node) if isinstance(s, ast.Assign) and
+            ast.unparse(s.targets[0]) == 'local_sequence_counter' and ast.unparse(s.value) == 'remote_sequence_counter']
+    ut = P.unit('SupvisorsInstanceStatus.update_tick')
+    dflt = [ast.unparse(d) for d in ut.node.args.defaults]
+    ok = len(loc_) == 1 and {tuple(f) for f in fm.at(loc_[0])} == {('local_sequence_counter < 0', True)} and dflt == ['-1']
+    R.check(r6, ok, 'only the -1 sentinel (local instance) makes a tick its own reference', 'threshold|sentinel', u.loc(),
+            'SupvisorsTimes.update takes the remote counter as local reference under %s (expected exactly '
+            '`local_sequence_counter < 0`, the -1 default of update_tick): a remote tick received at local counter 0 is '
+            'stamped with the remote counter and the peer is never seen inactive' %
+            [sorted(tuple(f) for f in fm.at(a)) for a in loc_])
     store = [s for s in own_nodes(u.node) if isinstance(s, ast.Assign) and
              ast.unparse(s.targets[0]) == 'self.local_sequence_counter']
     ok = len(store) == 1 and ast.unparse(store[0].value) == 'local_sequence_counter' and not fm.at(store[0])
